@@ -52,6 +52,11 @@ def f16(impl):
 def f19(impl): return 'done r2 status=200 by=a-t1-a:80' in _evs(impl, 'F19')
 
 
+def f10e(run):
+    from checklib import soak_engine
+    return soak_engine.f10e_still_fails(run)
+
+
 # (finding id, property, engine, witness path, predicate)
 DETECTORS = [
     ('F21', 'C11', 'control', 'corpus/control/F21-restore-fails-wildcard-subpath.ops', f21_still_fails),
@@ -64,6 +69,7 @@ DETECTORS = [
     ('F16', 'C03', 'proxy', 'corpus/proxy/F16-orphaned-lb.ops', f16),
     ('F16', 'C17', 'proxy', 'corpus/proxy/F16-orphaned-lb.ops', f16),
     ('F19', 'C09', 'proxy', 'corpus/proxy/F19-restore-readmits.ops', f19),
+    ('F10e', 'C18', 'custom:static', '', f10e),
 ]
 
 
